@@ -2647,7 +2647,13 @@ def r10_hooks(ctx, ids=('R10.0', 'R10.1', 'R10.3'), only_hooks=None):
             txt = norm(val) if val is not None else ''
             okv = isinstance(w, ast.Name) and ('%s.yaml_node' % w.id) in [norm(x) for x in
                                                                          _flow_sources(g, ret.value)]
-            r4.check(g.cfg.dominates(g.nid(c), g.nid(ret)) and okv,
+            # the walk over the hierarchy may be skipped when it has nothing to apply: `hasattr(<the class>, '_yatiml_sweeten')` is
+            # false exactly when no class on the way up defines the hook (attribute lookup goes through the same bases)
+            cls_txt = norm(byname[cls_par]) if cls_par in byname else None
+            extra = [t for t in g.guard_texts(c) if t not in g.guard_texts(ret)]
+            skip_ok = bool(extra) and cls_txt is not None and all(
+                t == "hasattr(%s, '_yatiml_sweeten')" % cls_txt for t in extra)
+            r4.check((g.cfg.dominates(g.nid(c), g.nid(ret)) or skip_ok) and okv,
                      'the sweetened node (%s.yaml_node) is what is returned, after sweetening' % (w.id if isinstance(w, ast.Name) else w),
                      g.key('sweetened-node-returned'), g.loc(ret), 'Representer.__call__ returns %s, not the sweetened node' % txt)
     if not sw:
